@@ -1354,6 +1354,9 @@ class FunctionTerms:
             return t
         if isinstance(e, ast.Subscript):
             base, idx = self.ev(e.value, env, ctx), self.ev_slice(e.slice, env, ctx)
+            # (~m)[i] is ~(m[i]): an elementwise negation commutes with taking elements (the spelling with the selection inside is the one recorded)
+            if isinstance(base, tuple) and len(base) == 3 and base[0] == "un" and base[1] == "~" and isinstance(idx, tuple) and idx and idx[0] not in ("slice", "tuple", "const"):
+                return ("un", "~", ("index", base[2], idx))
             # a[np.nonzero(mask)] / a[np.flatnonzero(mask)] select what a[mask] selects (same elements, same order) when mask is a Boolean mask
             if isinstance(idx, tuple) and len(idx) == 4 and idx[0] == "call" and idx[1] in (("global", "numpy.nonzero"), ("global", "numpy.flatnonzero")) \
                     and len(idx[2]) == 1 and not idx[3] and is_mask(idx[2][0]):
